@@ -994,7 +994,37 @@ def extract_session_order(out: Out, srcs):
                "window slot freed (in that order); _update_inflight() refills the window after that")
 
 
+def extract_session_order2(out: Out, srcs):
+    c = srcs.get("client.py")
+    if c is None:
+        return
+    F = "SessionOrder"
+
+    def pubrec_order():
+        """in the block that handles a PUBREC for a stored message: msg.state = mqtt_ms_wait_for_pubcomp is a plain statement of the
+        block (not under a test of what _send_pubrel() returns) and precedes the only call of self._send_pubrel(mid)"""
+        f = c.func("Client._handle_pubrec")
+        blocks = [n for n in walk(f, ast.If) if unparse(n.test) == "mid in self._out_messages"]
+        if len(blocks) != 1:
+            raise Missing("_handle_pubrec: `if mid in self._out_messages:` block")
+        body = blocks[0].body
+        assign = [i for i, st in enumerate(body) if isinstance(st, ast.Assign) and unparse(st.targets[0]) == "msg.state"
+                  and unparse(st.value) == "mqtt_ms_wait_for_pubcomp"]
+        sends = [(i, n) for i, st in enumerate(body) for n in walk(st, ast.Call)
+                 if isinstance(n.func, ast.Attribute) and n.func.attr == "_send_pubrel"]
+        all_sends = [n for n in walk(f, ast.Call) if isinstance(n.func, ast.Attribute) and n.func.attr == "_send_pubrel"]
+        if len(assign) != 1 or len(sends) != 1 or len(all_sends) != 1 or not assign[0] < sends[0][0]:
+            raise Missing(f"_handle_pubrec: state assignment {assign} / _send_pubrel call {[i for i, _ in sends]} in the block")
+        if any(unparse(st.targets[0]) == "msg.state" for st in walk(f, ast.Assign) if st is not body[assign[0]]):
+            raise Missing("_handle_pubrec: msg.state assigned elsewhere")
+        return True
+    out.anchor(F, "handlePubrecOrderOk", "Bool", pubrec_order,
+               "client.py Client._handle_pubrec: for a stored message the state becomes wait_for_pubcomp unconditionally, BEFORE PUBREL is "
+               "handed to _send_pubrel() (whose failure must not make the client forget the PUBREC)")
+
+
 EXTRACTORS.append(extract_session_order)
+EXTRACTORS.append(extract_session_order2)
 
 
 def run(write=True):
